@@ -14,7 +14,7 @@
 (***************************************************************************)
 EXTENDS Integers, Sequences, FiniteSets, TLC, Json
 
-CONSTANTS Classes, Level    \* Level: "quick" or "thorough"
+CONSTANTS Classes, Level    \* Level: "quick", "thorough", or "cycles" (C01: only hierarchies with an inheritance cycle)
 
 Aliases == {"X", "Y"}
 Wrappers == {"plain", "array", "dict"}
@@ -24,10 +24,11 @@ VARIABLES parents,  \* [Classes -> SUBSET Classes]
           alias,    \* [Aliases -> Classes \cup Aliases]
           ty,       \* the type name the variable is annotated with
           wrap,
+          layout,   \* how the class declarations are spread over files: "AB|C", "ABC" (one file), "A|B|C"
           where     \* where the wrapper is written: "type" = on the ---@type line (X[]), "alias" = in the alias that
                     \* names the class (---@alias X KA[] ... ---@type X); the variable is indexed either way
 
-vars == <<parents, shared, alias, ty, wrap, where>>
+vars == <<parents, shared, alias, ty, wrap, layout, where>>
 
 \* ancestors of a class, itself included (reflexive-transitive closure; terminates on cycles)
 RECURSIVE Up(_, _)
@@ -52,8 +53,11 @@ Declarers(m) == IF Target = "none" THEN {}
                 ELSE IF m = "fshared" THEN Ancestors(Target) \cap shared
                 ELSE {c \in Ancestors(Target) : OwnField(c) = m}
 
+DefaultAlias == [a \in Aliases |-> CHOOSE c \in Classes : TRUE]
 AliasCfgs == IF Level = "thorough" THEN [Aliases -> Classes \cup Aliases]
-             ELSE {a \in [Aliases -> Classes \cup Aliases] : a["Y"] \in {"X", "Y"} \/ a["X"] = "Y"}
+             ELSE {a \in [Aliases -> Classes \cup Aliases] : a["Y"] \in {"X", "Y"} \/ a["X"] = "Y"} \cup {DefaultAlias}
+
+HasCycle == \E c \in Classes : c \in UNION {Ancestors(p) : p \in parents[c]}
 
 Init == /\ parents \in [Classes -> SUBSET Classes]
         /\ shared \in SUBSET Classes
@@ -61,9 +65,12 @@ Init == /\ parents \in [Classes -> SUBSET Classes]
         /\ ty \in Classes \cup Aliases
         /\ wrap \in Wrappers
         /\ where \in {"type", "alias"}
+        /\ layout \in {"AB|C", "ABC", "A|B|C"}
+        /\ (Level = "quick" /\ layout # "AB|C" => wrap = "plain" /\ shared = {} /\ ty \in Classes)
+        /\ (Level = "cycles" => HasCycle /\ wrap = "plain" /\ shared = {} /\ ty \in Classes)
         /\ (where = "alias" => ty \in Aliases /\ wrap # "plain" /\ Resolve(ty, {}) # "none")
         \* aliases matter only when the variable is typed through one
-        /\ (ty \in Classes => alias = [a \in Aliases |-> CHOOSE c \in Classes : TRUE])
+        /\ (ty \in Classes => alias = DefaultAlias)
         /\ (Level = "quick" => (wrap = "plain" \/ shared = {}))
         /\ (Level = "quick" => Cardinality({<<c, d>> \in Classes \X Classes : d \in parents[c]}) <= 3)
 
@@ -74,7 +81,7 @@ MembersMonotone == \A c \in Classes : OwnField(c) \in Members => c \in Ancestors
 SelfMember == Target # "none" => OwnField(Target) \in Members
 CycleSafe == Target \in Classes \cup {"none"}
 
-Emit == PrintT("@@J " \o ToJson([fam |-> "classgraph", parents |-> parents, shared |-> shared, alias |-> alias, ty |-> ty, wrap |-> wrap, where |-> where,
+Emit == PrintT("@@J " \o ToJson([fam |-> "classgraph", parents |-> parents, shared |-> shared, alias |-> alias, ty |-> ty, wrap |-> wrap, where |-> where, layout |-> layout,
                                  target |-> Target, members |-> Members,
                                  decl |-> [m \in Members |-> Declarers(m)]]))
 =============================================================================
